@@ -79,6 +79,9 @@ ActorStep(st, q) ==
                                            ELSE SetOpen(st, d, [o EXCEPT !.handles = @ - 1])
          IN IF IsOpen(st1, d) THEN Fail(st1, "StillOpen")
             ELSE Ok(SetDoc(st1, d, NoDoc), <<>>)
+    [] q.op = "ExportSecret" ->
+         IF ~open THEN Fail(st, "NotOpen")
+         ELSE IF doc.cap # "write" THEN Fail(st, "ReadOnly") ELSE Ok(st, <<>>)
     [] q.op = "Flush" -> Ok(st, <<>>)
     [] OTHER -> Fail(st, "BadRequest")
 =============================================================================
